@@ -38,11 +38,16 @@ def install():
     import func_adl_xAOD.common.cpp_vars as cv
 
     REPO_PKG = os.path.dirname(os.path.abspath(func_adl_xAOD.__file__))
-    # import everything now so that import-time side effects are part of the pristine state
-    import func_adl_xAOD.atlas.xaod.executor  # noqa
-    import func_adl_xAOD.cms.aod.executor  # noqa
-    import func_adl_xAOD.cms.miniaod.executor  # noqa
-    import func_adl_xAOD.common.local_dataset  # noqa
+    # The pristine process has done what a user's fresh interpreter has done - `import func_adl_xAOD` - and nothing more.
+    # Whatever the package imports lazily (the miniAOD backend, the local-dataset module, backend modules pulled in by
+    # metadata processing) is imported by the history or the reference when they first need it, so that import-time
+    # side effects of those modules are part of the history, as they are in a real process.
+    # VERIF_PREIMPORT=1 restores the old model (everything imported up front) for comparison.
+    if os.environ.get("VERIF_PREIMPORT"):
+        import func_adl_xAOD.atlas.xaod.executor  # noqa
+        import func_adl_xAOD.cms.aod.executor  # noqa
+        import func_adl_xAOD.cms.miniaod.executor  # noqa
+        import func_adl_xAOD.common.local_dataset  # noqa
     import qastle  # noqa
 
     orig = cv.unique_name
@@ -171,7 +176,9 @@ def normalise(texts, names, masks, code=False):
 
 
 def import_time_names():
-    import func_adl_xAOD.cms.miniaod.event_collections as mec
+    mec = sys.modules.get("func_adl_xAOD.cms.miniaod.event_collections")
+    if mec is None:
+        return []
     t = getattr(mec.cms_event_collection_coder, "t_name", None)  # existed before the miniAOD token fix
     return [t] if t else []
 
@@ -305,6 +312,10 @@ class AbortPlan:
         while f is not None:
             nm = f.f_code.co_name
             if nm == "reset" or nm.startswith("define_default") or nm.startswith("_reset"):
+                return True
+            if nm == "<module>":
+                # a lazily imported module is being executed: an abort in the middle of an import is the interpreter's
+                # import machinery's business (half-initialised modules), not translator state
                 return True
             f = f.f_back
         return False
